@@ -7,7 +7,7 @@ import concurrent.futures as cf
 import json, os, re, subprocess, sys, tempfile
 
 VERIF = "/verif"
-ids = sys.argv[1:] or sorted(os.listdir(f"{VERIF}/seeded"))
+ids = sys.argv[1:] or sorted(d for d in os.listdir(f"{VERIF}/seeded") if os.path.isdir(f"{VERIF}/seeded/{d}"))
 CHECKS = sorted(f"C{m.group(1)}" for f in os.listdir(f"{VERIF}/hsa/rules") if (m := re.fullmatch(r"c(\d\d)\.py", f)))
 
 
